@@ -960,6 +960,19 @@ package adaptation
 //@   ensures [good]     p.cmd == nil && req.PluginName != "" && twoDigits(req.PluginIdx) ==> result.1 == nil && callarg("chan.send:chan error", old(ncalls("chan.send:chan error")), 1) == nil && p.base == req.PluginName && p.idx == req.PluginIdx
 //@   ensures [launched] p.cmd != nil ==> result.1 == nil && callarg("chan.send:chan error", old(ncalls("chan.send:chan error")), 1) == nil && p.base == old(p.base) && p.idx == old(p.idx)
 
+// ---------------------------------------------------------------------------
+// Synchronization (plugin.go)
+// ---------------------------------------------------------------------------
+//@ func recalcObjsPerSyncMsg
+//@   props C09
+//@   requires 0 <= pods && 0 <= ctrs && err != nil
+//@   modifies calls("google.golang.org/grpc/status.Code"), calls("errors.As"), calls("(*github.com/containerd/ttrpc.OversizedMessageErr).MaximumLength"), calls("(*github.com/containerd/ttrpc.OversizedMessageErr).RejectedLength")
+//@   ensures [bounds]   result.2 == nil ==> 0 <= result.0 && result.0 <= pods && 0 <= result.1 && result.1 <= ctrs
+//@   ensures [progress] result.2 == nil ==> result.0 + result.1 < pods + ctrs
+//@   ensures [nonzero]  result.2 == nil ==> (pods > 0 ==> result.0 > 0) && (ctrs > 0 ==> result.1 > 0)
+//@   ensures [error]    result.2 != nil ==> result.0 == pods && result.1 == ctrs
+//@   ensures [passthru] err == nil ==> true
+
 // ---- lifecycle event wrappers: set the event kind, then dispatch (generated by gen_dispatch.py) ----
 //@ func Adaptation.RunPodSandbox
 //@   props C06
